@@ -46,7 +46,7 @@ def show(t, style="minimal"):
         return str(int(v)) if float(v).is_integer() else repr(float(v))
     if k == "call":
         if t[1] == "pi" and not t[2]:
-            return "pi()"
+            return "pi" if style == "minimal" else "pi()"      # a constant may be written bare or as a call
         return f"{t[1]}({', '.join(show(a, style) for a in t[2])})"
 
     def wrap(c, need):
